@@ -8,7 +8,7 @@ from vf.spec import Ctx, Err, Ok, Program, Unspecified, canon, jtype, match_img
 PROP = "C01"
 SHARDS = {"quick": 8, "thorough": 16}
 TIME_CAP = {"quick": 70, "thorough": 900}
-REQUIRED = ["agree_accept", "agree_reject", "programs", "per_call_schema_programs", "per_call_validators_programs", "generic_programs"]
+REQUIRED = ["generic_inheritance_checks", "agree_accept", "agree_reject", "programs", "per_call_schema_programs", "per_call_validators_programs", "generic_programs"]
 # compiled-tree node classes this workload is expected to reach: reported as coverage gaps when missing, never a verdict
 # (a renamed internal class must not turn into an alarm)
 EXPECTED_NODES = ["node:ObjectMethod", "node:SimpleObjectMethod", "node:UnionByTypeMethod", "node:UnionMethod", "node:OptionalMethod", "node:ListMethod", "node:ListCheckOnlyMethod", "node:TupleMethod", "node:SetMethod", "node:LiteralMethod", "node:MappingMethod"]
@@ -175,9 +175,96 @@ def check_program(env, prog, nopts, ndata, label):
         env.count("generic_programs")
 
 
+GENERIC_INHERITANCE = """
+from dataclasses import dataclass, field
+from typing import Dict, Generic, List, Optional, Tuple, TypeVar
+T = TypeVar("T"); U = TypeVar("U"); V = TypeVar("V")
+
+@dataclass
+class GBase(Generic[T]):
+    b: T
+
+@dataclass
+class GReordered(GBase[T], Generic[U, T]):      # class parameters (U, T): another order than their first appearance in the bases
+    a: U
+
+@dataclass
+class GFixed(GBase[int]):                        # non-generic child of a specialised base
+    c: str
+
+@dataclass
+class GWrapped(GBase[List[T]], Generic[T]):      # the base is specialised with a type built from the parameter
+    d: T
+
+@dataclass
+class GPair(Generic[T, U]):
+    first: T
+    second: U
+
+@dataclass
+class GSwapped(GPair[U, T], Generic[T, U]):      # parameters handed to the base in swapped order
+    extra: Optional[T] = None
+
+@dataclass
+class GTwoLevels(GReordered[V, str], Generic[V]):
+    e: V
+"""
+
+# (type expression, field -> kind of its value); kinds: i = int, s = str, li = list of int, oi = optional int
+GENERIC_CASES = [
+    ("GReordered[int, str]", {"a": "i", "b": "s"}), ("GReordered[str, int]", {"a": "s", "b": "i"}), ("GFixed", {"b": "i", "c": "s"}),
+    ("GWrapped[int]", {"b": "li", "d": "i"}), ("GSwapped[int, str]", {"first": "s", "second": "i", "extra": "oi"}),
+    ("GSwapped[str, int]", {"first": "i", "second": "s"}), ("GTwoLevels[int]", {"a": "i", "b": "s", "e": "i"}),
+    ("List[GReordered[int, str]]", None), ("GPair[int, str]", {"first": "i", "second": "s"}),
+]
+_GOOD = {"i": 3, "s": "x", "li": [1, 2], "oi": None}
+_BAD = {"i": "x", "s": 3, "li": ["a"], "oi": "x"}
+
+
+def check_generic_inheritance(env):
+    """generic classes inheriting from specialised generic bases: the type of every field is the one obtained by substituting
+    the class parameters (direct expectations; the TypeSpec grammar only has single generic classes)"""
+    import sys
+    import types
+    from apischema import deserialize
+
+    mod = types.ModuleType(f"vfgeninh_{env.shard}")
+    sys.modules[mod.__name__] = mod
+    try:
+        exec(compile(GENERIC_INHERITANCE, "<vfgeninh>", "exec"), mod.__dict__)
+        harness.reset_all()
+        for expr, kinds in GENERIC_CASES:
+            if kinds is None:
+                continue
+            T_ = eval(expr, mod.__dict__)
+            good = {f: _GOOD[k] for f, k in kinds.items()}
+            cases = [("all-valid", good, True)]
+            for f, k in kinds.items():
+                cases.append((f"bad-{f}", {**good, f: _BAD[k]}, False))
+            if len({k for k in kinds.values()} & {"i", "s"}) == 2:
+                sw = {f: _GOOD["s" if k == "i" else "i" if k == "s" else k] for f, k in kinds.items()}
+                cases.append(("int-and-str-swapped", sw, False))
+            for label, d, ok in cases:
+                for wrap in (False, True):
+                    o = harness.call(deserialize, mod.List[T_] if wrap else T_, [d] if wrap else d)
+                    env.count("generic_inheritance_checks")
+                    env.case("generic-inheritance", expr, label, wrap)
+                    if o.kind == "exc" or (o.kind == "ok") != ok:
+                        env.violation({"kind": "false-reject" if ok else "false-accept" if o.kind == "ok" else "exception", "family": "generic-inheritance"},
+                                      {"program": GENERIC_INHERITANCE + f"\nT = {expr}\n", "type": expr, "datum": d, "case": label, "observed": o.brief(), "expected": "accept" if ok else "reject"})
+                    elif ok:
+                        v = o.value[0] if wrap else o.value
+                        if any(getattr(v, f) != d[f] for f in d):
+                            env.violation({"kind": "image", "family": "generic-inheritance"}, {"type": expr, "datum": d, "observed": o.brief()})
+    finally:
+        sys.modules.pop(mod.__name__, None)
+
+
 def run(env):
     harness.tag_errors(True)
     rng = env.rng
+    if env.shard == 0:
+        check_generic_inheritance(env)
     # ---- part A: bounded-exhaustive small types, sliced by shard (quick: every 4th of the slice, rotating with the seed)
     small = list(gen_types.enumerate_small())
     env.count("small_space", 0)
